@@ -696,7 +696,19 @@ def build_deep_cases(f, rng, fams, count, max_nodes):
         style, andtok, bare = rng.randint(0, 1), rng.choice(["&&", "&&", ","]), rng.random() < 0.5
         cased = [q_map(q, lambda a: {"op": a["op"], "t": vary_case(a["t"], rng.randint(0, 3))}) for q in qs]
         texts = [q_text(q, style, andtok, bare) for q in cased]
+        # the atom texts exactly as the parser sees them (casefolded) with the mode the AST intends
+        atoms_seen = {}
+
+        def collect(qa, qc):
+            if qa["op"] in ATOM_OPS:
+                atoms_seen[q_text(qc, style, andtok, bare).casefold()] = qa
+            for k in ("l", "r"):
+                if k in qa:
+                    collect(qa[k], qc[k])
+        for qa, qc in zip(qs, cased):
+            collect(qa, qc)
         cases.append({"n": len(par), "par": par, "lab": lab, "qs": qs, "perm": perm, "dw": dw,
+                      "atoms": [[t, a] for t, a in sorted(atoms_seen.items())],
                       "law": [1, 2, 3, 4, 5, 6, 7, 8], "hed": s, "hed2": s2, "texts": texts, "core": core})
     return vocab, cases, used
 
@@ -776,6 +788,8 @@ def _design_runs(ctx, quick, ncpu):
                 label="laws on all annotation trees <= 4 nodes")
     ctx.note("law_trees_checked", r.distinct)
     if not quick:
+        r = ctx.tlc("MC_Query", "MC_Query_small.cfg", workers=ncpu, env=JAVA_ENV, timeout=1500,
+                    label="laws, medium query universes, trees <= 4 nodes")
         r = ctx.tlc("MC_Query", "MC_Query_big.cfg", workers=ncpu, env=JAVA_ENV, timeout=1500,
                     label="laws, larger query universes, trees <= 4 nodes")
         r = ctx.tlc("MC_Query", "MC_Query_deep.cfg", workers=ncpu, env=JAVA_ENV, timeout=1800,
@@ -783,10 +797,12 @@ def _design_runs(ctx, quick, ncpu):
         ctx.note("law_trees_checked", r.distinct)
     # sensitivity: broken variants of the semantics must violate the laws; vacuity guards must fail
     for cfg, inv in [("MC_Query_nodisjoint.cfg", "AndDistinctTags"), ("MC_Query_asym.cfg", "AndSymmetric"),
-                     ("MC_Query_orleft.cfg", "OrIff"), ("MC_Query_vac_and.cfg", "NeverAndMatch"),
-                     ("MC_Query_vac_sib.cfg", "NeverReordered")]:
-        _expect_violation(ctx, cfg, inv, "sensitivity/vacuity: %s must be violated" % inv, workers=2, timeout=300)
-    ctx.note("sensitivity_runs_violated_as_expected", 5)
+                     ("MC_Query_orleft.cfg", "OrIff")]:
+        _expect_violation(ctx, cfg, inv, "sensitivity: broken semantics, %s must be violated" % inv, workers=2, timeout=300)
+    if not quick:       # vacuity guards as TLC runs (the quick tier reads the same facts off the emitted cases)
+        for cfg, inv in [("MC_Query_vac_and.cfg", "NeverAndMatch"), ("MC_Query_vac_sib.cfg", "NeverReordered")]:
+            _expect_violation(ctx, cfg, inv, "vacuity: %s must be violated" % inv, workers=2, timeout=300)
+    ctx.note("sensitivity_runs_violated_as_expected", 3)
 
     # ---- 2. design runs: tokenizer / parser -----------------------------------------------------
     ctx.tlc("MC_Query", "MC_QueryText.cfg", workers=ncpu, coverage=True, env=JAVA_ENV, timeout=900,
@@ -796,8 +812,9 @@ def _design_runs(ctx, quick, ncpu):
                 label="parser invariants, all lexeme strings <= 5 (core alphabet)")
     rl = _expect_violation(ctx, "MC_QueryText_lenient.cfg", "UnbalancedRejectedLenient",
                            "the parser as the code implements it does NOT reject all unbalanced texts", workers=2, timeout=300)
-    for cfg, inv in [("MC_QueryText_vac_acc.cfg", "NeverAccepts"), ("MC_QueryText_vac_unb.cfg", "NeverUnbalanced")]:
-        _expect_violation(ctx, cfg, inv, "vacuity: %s must be violated" % inv, workers=2, timeout=300)
+    if not quick:
+        for cfg, inv in [("MC_QueryText_vac_acc.cfg", "NeverAccepts"), ("MC_QueryText_vac_unb.cfg", "NeverUnbalanced")]:
+            _expect_violation(ctx, cfg, inv, "vacuity: %s must be violated" % inv, workers=2, timeout=300)
     ctx.note("model_of_code_parser_violates_UnbalancedRejected", True)
 
 
@@ -901,6 +918,16 @@ def run(ctx):
     for ti, t in enumerate(trees):
         base = ti * 4096
         ctx.nontrivial.update(base + i for i, b in enumerate(t["res"]) if b)
+    # vacuity: the antecedents of the laws occur among the emitted cases
+    li = _G["li"]
+    hits = {"and_matches": sum(1 for t in trees for i, _l, _r, _s in li.ands if t["res"][i]),
+            "or_matches": sum(1 for t in trees for i, _l, _r in li.ors if t["res"][i]),
+            "and_of_atoms_without_witness_pairs": sum(len(t["nodw"]) for t in trees),
+            "associativity_pairs": len(li.assoc), "symmetric_pairs": sum(1 for a in li.ands if a[3] is not None),
+            "annotations_reordered": sum(r["sib"] for r in results)}
+    ctx.note("law_antecedent_hits", hits)
+    if not all(hits.values()):
+        raise tlc.TLCFailure("vacuous law check: %s" % hits)
     ctx.note("gen_trees", len(trees))
     ctx.note("gen_queries", len(queries))
     ctx.note("gen_searches_on_code", nsearch)
@@ -911,7 +938,7 @@ def run(ctx):
     path = os.path.join(ctx.work, "deep.json")
     with open(path, "w") as fh:
         json.dump({"vocab": vocab, "families": [], "texts": [],
-                   "cases": [{k: c[k] for k in ("n", "par", "lab", "qs", "perm", "dw", "law")} for c in cases]}, fh)
+                   "cases": [{k: c[k] for k in ("n", "par", "lab", "qs", "perm", "dw", "law", "atoms")} for c in cases]}, fh)
     r = ctx.tlc("Trace_Query", "Trace_Query.cfg", workers=ncpu, env=dict(JAVA_ENV, TRACE_FILE=path), timeout=2400,
                 label="trace mode: %d random (annotation, A, B, C) tuples over real tags" % len(cases))
     verdicts = {j["case"]["i"]: j["case"] for j in r.json_lines if "case" in j}
@@ -922,6 +949,9 @@ def run(ctx):
         v = verdicts[i]
         if not v["treeok"]:
             raise tlc.TLCFailure("trace mode: generated case %d is not a well-formed tree/query: %s" % (i, c["hed"]))
+        if not v["atomsok"]:
+            raise tlc.TLCFailure("trace mode: case %d, the spec reads the atom texts %s differently from the renderer"
+                                 % (i, c["atoms"]))
         c["verdict"] = v
         good.append(c)
         if v["sibfails"]:
@@ -988,6 +1018,8 @@ def run(ctx):
     ctx.traces += tot["n"]
     ctx.nontrivial.update("t:" + c["text"] for c in allt if c["lenient"] or not c["balanced"])
     ctx.note("query_texts", tot)
+    if not (tot["accepted"] and tot["rejected"] and tot["unbalanced"]):
+        raise tlc.TLCFailure("vacuous parser check: %s" % tot)
     if ctx.extra.get("spec_drift"):
         print("SPEC-DRIFT C15: %d answers differ between model and code outside the statement's clauses, e.g. %s"
               % (ctx.extra["spec_drift"], json.dumps(ctx.extra.get("spec_drift_examples", [])[:2])))
@@ -1048,3 +1080,26 @@ def replay(obj):
         after = snapshot(hs)
         return before == after, "annotation %r after searching: %r" % (before[0], after[0])
     return True, "unknown replay kind %r" % kind
+
+
+def selftest(ctx):
+    """./check C15 --selftest: the replay executor tells right from wrong expectations (no TLC)."""
+    _schema()
+    probes = [
+        ({"kind": "atom", "hed": "(Red, Blue), Green", "query": "Red-color", "expected": True}, True),
+        ({"kind": "atom", "hed": "(Red, Blue), Green", "query": "Red-color", "expected": False}, False),
+        ({"kind": "atom", "hed": "Label/abc", "query": '"Label"', "expected": False}, True),
+        ({"kind": "oriff", "hed": "Red", "ab": "Red || Blue", "a": "Red", "b": "Blue"}, True),
+        ({"kind": "oriff", "hed": "Red", "ab": "Red && Blue", "a": "Red", "b": "Blue"}, False),
+        ({"kind": "distinct", "hed": "Red", "ab": "Red && Red"}, True),
+        ({"kind": "distinct", "hed": "Red, Red", "ab": "Red && Red"}, False),
+        ({"kind": "sibling", "hed": "(Red, Blue), Green", "hed2": "Green, (Blue, Red)", "query": "{Red && Blue}"}, True),
+        ({"kind": "compile", "text": "(Red", "expect": "reject"}, True),
+        ({"kind": "compile", "text": "Red && Blue", "expect": "reject"}, False),
+    ]
+    bad = 0
+    for obj, want in probes:
+        ok, text = replay(obj)
+        print(("ok   " if ok == want else "WRONG") + " replay -> %s (wanted %s): %s" % (ok, want, text))
+        bad += ok != want
+    return 1 if bad else 0
